@@ -1,6 +1,7 @@
 package crypto
 
 import (
+	"encoding/binary"
 	"slices"
 
 	"github.com/relab/hotstuff"
@@ -44,9 +45,15 @@ func hasDuplicateSigners[T Signature](sig Multi[T]) bool {
 
 // ToBytes returns the object as bytes.
 func (sig Multi[T]) ToBytes() []byte {
+	// These bytes are hashed and signed (a block's hash covers its QC, a timeout message the QC it reports),
+	// so they must determine the multi-signature: every part is written with its signer and its length.
+	// A bare concatenation reads the same when it is cut at another place or attributed to other signers.
 	var b []byte
 	for _, signature := range sig {
-		b = append(b, signature.ToBytes()...)
+		part := signature.ToBytes()
+		b = append(b, signature.Signer().ToBytes()...)
+		b = binary.LittleEndian.AppendUint32(b, uint32(len(part)))
+		b = append(b, part...)
 	}
 	return b
 }
